@@ -1798,6 +1798,9 @@ mod crypto {
                                 assert!(sizebuf_bytes_read <= 8);
                             }
                         }
+                        // Part of the size header may already have been consumed: retry here, like
+                        // read_exact does, instead of returning and losing those bytes.
+                        Err(ref err) if err.kind() == ErrorKind::Interrupted => continue,
                         Err(err) => return Err(err),
                     }
                     if sizebuf_bytes_read == 8 {
